@@ -81,8 +81,10 @@ def build_unit(u, wdir):
     pre = os.path.join(m['dir'], u.get('preamble', m.get('preamble', 'pre.h')))
     har = os.path.join(m['dir'], u.get('harness', m.get('harness', 'harness.c')))
     for si, s in enumerate(srcs):
+        compile_it = True
         if isinstance(s, dict):
             sfile, sspec = s['file'], s.get('spec')
+            compile_it = s.get('compile', True)
         else:
             sfile, sspec = s, (u.get('spec', m.get('spec', 'spec.txt')) if si == 0 else None)
         path = os.path.join(REPO, sfile)
@@ -99,9 +101,11 @@ def build_unit(u, wdir):
         info['source'] = sfile
         info['labels'] = ensures_labels(spec_s)
         infos.append(info)
-        of = os.path.join(wdir, 'inj_' + os.path.basename(sfile))
+        # same base name as in /repo/src, so that `#include "x.c"` between sources resolves to the injected copy
+        of = os.path.join(wdir, os.path.basename(sfile))
         open(of, 'w').write(out)
-        cfiles.append(of)
+        if compile_it:
+            cfiles.append(of)
     for l in u.get('link', m.get('link', [])):
         cfiles.append(os.path.join(VERIF, l))
     entry = u['entry']
@@ -131,9 +135,9 @@ def build_unit(u, wdir):
 def cbmc_base(u):
     flags = ['cbmc'] + CBMC_CHECK_FLAGS + u.get('flags', [])
     route = u.get('solver', 'sat')
-    if route == 'sat':
+    if route == 'minisat':
         pass
-    elif route == 'cadical':
+    elif route in ('sat', 'cadical'):    # default SAT route: cadical (probe: 1.3 s where minisat needs 570 s on XOR-heavy miters)
         flags += ['--sat-solver', 'cadical']
     elif route == 'kissat':
         flags += ['--external-sat-solver', 'kissat']
